@@ -148,14 +148,26 @@ def run_batch(mod, seed, tr, n_runs, budget_s):
     t0 = time.time()
     nw = workers()
     chunk = max(1, min(200, n_runs // (nw * 4) or 1))
-    jobs = []
+    sys_jobs = []
     if hasattr(mod, 'systematic'):
         sysplans = list(mod.systematic(tr))
         step = getattr(mod, 'SYSTEMATIC_CHUNK', 50)
         for k in range(0, len(sysplans), step):
-            jobs.append((mod.__name__, seed, 0, 0, tr, sysplans[k:k + step]))
+            sys_jobs.append((mod.__name__, seed, 0, 0, tr, sysplans[k:k + step]))
+    seeded_jobs = []
     for lo in range(0, n_runs, chunk):
-        jobs.append((mod.__name__, seed, lo, min(n_runs, lo + chunk), tr, None))
+        seeded_jobs.append((mod.__name__, seed, lo, min(n_runs, lo + chunk), tr, None))
+    # the exhaustive parts and the seeded search share the wall-clock budget: interleave them (a fixed,
+    # seed-independent pattern) so that a truncated batch has done its share of both
+    jobs = []
+    ratio = max(1, len(seeded_jobs) // max(1, len(sys_jobs)))
+    si = 0
+    for j, job in enumerate(seeded_jobs):
+        if j % ratio == 0 and si < len(sys_jobs):
+            jobs.append(sys_jobs[si])
+            si += 1
+        jobs.append(job)
+    jobs.extend(sys_jobs[si:])
     merged = {'n': 0, 'evals': 0, 'ok': 0, 'skip': 0, 'viol': [], 'known': {}, 'viol_dropped': 0, 'counters': {}, 'digests': {},
               'sites': set(), 'skips': {}, 'samples': [], 'harness': None, 'events': 0,
               'truncated': False, 'all_digest': []}
@@ -201,7 +213,10 @@ def run_batch(mod, seed, tr, n_runs, budget_s):
                         merged['harness'] = 'HARNESS-ERROR worker died\n' + traceback.format_exc()
                 if merged['harness']:
                     break
-    for res in results:
+    # merge in a canonical order that does not depend on how the work was cut into jobs: the exhaustive
+    # parts first, then the seeded runs by index
+    order = [j for j, job in enumerate(jobs) if job[5] is not None] + [j for j, job in enumerate(jobs) if job[5] is None]
+    for res in [results[j] for j in order]:
         if res is None:
             continue
         merged['n'] += res['n']
